@@ -113,17 +113,21 @@ class FeeNoFlow(object):
 class TradeNoUpdate(object):
     """user-style algo: trades with update=False and relies on the backtest's closing update (lazy-update protocol)"""
 
-    def __init__(self, child, frac, how="allocate"):
+    def __init__(self, child, frac, how="allocate", units=None):
         self.child = child
         self.frac = frac
         self.how = how
+        self.units = units
 
     def __call__(self, target):
         px = target.universe.loc[target.now, self.child]
         if not (px == px) or px <= 0:
             return True
         amount = self.frac * target.value
-        if self.how == "lazy":
+        if self.units is not None:
+            # an overlay trading a fixed quantity with default flags (the tree is marked stale, nothing is read afterwards)
+            target.transact(self.units, child=self.child)
+        elif self.how == "lazy":
             # default flags: the tree is only marked stale (what HedgeRisks does with its hedge trades); whoever reads next refreshes it
             target.transact(amount / px, child=self.child)
         elif self.how == "strategy_transact":
@@ -169,7 +173,9 @@ class SpawnSub(object):
             algos = [A.RunOnce(), A.SelectThese(self.tickers), A.WeighEqually(), A.Rebalance()]
             new = self.bt.Strategy(self.name, algos, children=list(self.tickers) if self.declare else None, parent=target)
             new.setup_from_parent()
-            target.allocate(self.frac * target.value, child=self.name)
+            if self.frac:
+                # funded at once (reading the parent's value refreshes the tree), or left for a later algo of the stack to fund
+                target.allocate(self.frac * target.value, child=self.name)
         return True
 
 
@@ -374,7 +380,7 @@ def mk_algo(bt, a, spec, frames):
     if name == "FeeNoFlow":
         return FeeNoFlow(p["amount"])
     if name == "TradeNoUpdate":
-        return TradeNoUpdate(p["child"], p["frac"], p.get("how", "allocate"))
+        return TradeNoUpdate(p["child"], p["frac"], p.get("how", "allocate"), p.get("units"))
     if name == "SpawnSub":
         return SpawnSub(bt, p["date"], p["name"], p["tickers"], p["frac"], p.get("declare", True))
     if name == "CloseChild":
